@@ -1,3 +1,4 @@
+import Mp.JsonDoc
 import Mp.JsonProofs
 import Mp.ProofsSim
 import Mp.ProofsSim2
@@ -13,3 +14,6 @@ import Mp.ProofsL3
 #print axioms Mp.GoJson.pValue_render
 #print axioms Mp.GoJson.parse_render
 #print axioms Mp.GoJson.unmarshal_render_object
+#print axioms Mp.GoJson.toGo_ofDoc
+#print axioms Mp.GoJson.parseJSON_of_document
+#print axioms Mp.GoJson.parseJSON_func
